@@ -180,7 +180,8 @@ def closedStep (x : Sess) (toks : List String) : Step :=
       | none => { sess := some x, out := "bad-op" }
       | some cap =>
         let oo : OpenOpts := { sync := fl == "sync", kind := k, reserved := reserved, cap := cap, minSeg := minseg,
-                               retries := x.opts.retries, magic := magic, create := create == 1, createNew := false }
+                               retries := x.opts.retries, magic := magic, create := create == 1 || create == 3,
+                               createNew := (create == 2 || create == 3) && (mode == "mut" || mode == "copy") }
         let pkOf (before after : FileSys) : Nat :=
           match before, after with
           | some b, some a => if a.size ≥ b.size ∧ a.extract 0 b.size == b then 1 else 0
@@ -188,7 +189,7 @@ def closedStep (x : Sess) (toks : List String) : Step :=
           | some _, none => 0
         -- a file created by this very open without a capacity has length 0, which is below a non-zero mapping offset:
         -- the map itself is refused by the OS layer (`InvalidData`), the empty file stays
-        if x.foff > 0 && cap.isNone && x.fs.isNone && create == 1 && (mode == "mut" || mode == "copy") then
+        if x.foff > 0 && cap.isNone && x.fs.isNone && create != 0 && (mode == "mut" || mode == "copy") then
           let x := { x with fs := some #[], fpre := #[] }
           { sess := some x, out := s!"r=io:InvalidData pk=1 {fileStr x.whole}" }
         else
